@@ -15,8 +15,40 @@ type CodeWriter struct {
 	WriteSemicolons bool
 
 	pendings    []rune
-	last        byte // last byte written, used to keep adjacent operators apart
-	semiOmitted bool // an optional semicolon was left out and nothing has been written since
+	last        byte             // last byte written, used to keep adjacent operators apart
+	semiOmitted bool             // an optional semicolon was left out and nothing has been written since
+	mappings    []pendingMapping // recorded, waiting for the position of the next write
+}
+
+type pendingMapping struct {
+	line, column int
+	name         string
+	named        bool
+}
+
+// raw writes layout text (pending whitespace, comments, restored semicolons) and keeps the
+// source mapper's generated position in step with the output.
+func (cw *CodeWriter) raw(s string) {
+	cw.Builder.WriteString(s)
+	if len(s) > 0 {
+		cw.last = s[len(s)-1]
+	}
+	if cw.Mapper != nil {
+		cw.Mapper.AdvanceString(s)
+	}
+}
+
+// commitMappings records the waiting mappings at the current generated position, i.e. after the
+// pending whitespace has been written and right before the token itself.
+func (cw *CodeWriter) commitMappings() {
+	for _, m := range cw.mappings {
+		if m.named {
+			cw.Mapper.AddNamedMapping(m.line, m.column, m.name)
+		} else {
+			cw.Mapper.AddMapping(m.line, m.column)
+		}
+	}
+	cw.mappings = cw.mappings[:0]
 }
 
 // WriteString writes a string to the buffer
@@ -24,6 +56,7 @@ func (cw *CodeWriter) WriteString(s string) {
 	defer cw.vtrace("WriteString", s)()
 	cw.restoreSemi(s)
 	cw.flushPending()
+	cw.commitMappings()
 	cw.Builder.WriteString(s)
 	if len(s) > 0 {
 		cw.last = s[len(s)-1]
@@ -39,6 +72,7 @@ func (cw *CodeWriter) WriteRune(r rune) {
 	defer cw.vtrace("WriteRune", string(r))()
 	cw.restoreSemi(string(r))
 	cw.flushPending()
+	cw.commitMappings()
 	cw.Builder.WriteRune(r)
 	cw.last = byte(r)
 	if cw.Mapper == nil {
@@ -107,11 +141,7 @@ func (cw *CodeWriter) restoreSemi(next string) {
 			return
 		}
 	}
-	cw.Builder.WriteByte(';')
-	cw.last = ';'
-	if cw.Mapper != nil {
-		cw.Mapper.AdvanceColumn(1)
-	}
+	cw.raw(";")
 }
 
 // String returns the accumulated string
